@@ -203,6 +203,7 @@ func (p program) coqProgs() string {
 	}
 	return hv.List(ts)
 }
+
 // snapshot copies the program reading the fields the workers write with atomic loads
 func (p program) snapshot() program {
 	q := program{cap: p.cap}
@@ -565,7 +566,7 @@ func runControlled(class string, p0 program, script []int, r *hv.Rand) {
 	switches := 0
 	for k, s := range steps {
 		ch := (s.from == "dc.recv.select" && s.next == "dc.recv.err") || (s.from == "dc.send.select" && s.next == "dc.send.err")
-		code := (s.th*64+pointCode[s.from])*4
+		code := (s.th*64 + pointCode[s.from]) * 4
 		if ch {
 			code += 2
 		}
